@@ -82,8 +82,9 @@ Proof. exact add_urn_twin. Qed.
 Print Assumptions c19_add_urn_preserves_twins_partial.
 
 Theorem c19_add_urn_refuted :
-  exists e s t u, redact e = true /\ session_twin s t /\
-    ~ Forall2 urn_twin (add_urn [ex_tel "+12065551212"] u) (add_urn [ex_tel "+12065553434"] u) /\
+  exists e s t c d u, redact e = true /\ session_twin s t /\
+    s_contact s = Some c /\ s_contact t = Some d /\
+    ~ Forall2 urn_twin (add_urn (c_urns c) u) (add_urn (c_urns d) u) /\
     root_context e (set_contact_urns s (fun us => add_urn us u))
       <> root_context e (set_contact_urns t (fun us => add_urn us u)).
 Proof. exact add_urn_refuted_witness. Qed.
@@ -158,6 +159,14 @@ Theorem c19_environment_and_value_builders_covered :
   rows_eqb model_value_builders source_value_builders = true.
 Proof. exact env_and_values_covered. Qed.
 Print Assumptions c19_environment_and_value_builders_covered.
+
+(* ... and for WHO READS the contact's URNs during a run (functions under flows/actions, flows/modifiers, flows/routers
+   calling a URN-touching method of Contact, ContactURN, URNList, ChannelAssets, sessionEnvironment): exactly the rows
+   Redact.v accounts for — of these only URNsModifier.Apply (add_contact_urn) and ChannelModifier.Apply
+   (set_contact_channel) change the state depending on held URNs, the others feed events or the known sinks *)
+Theorem c19_urn_readers_covered : pairs_eqb model_urn_readers source_urn_readers = true.
+Proof. exact urn_readers_covered. Qed.
+Print Assumptions c19_urn_readers_covered.
 
 (* ... and the tree the model builds has exactly the keys of that table at every transcribed builder *)
 Theorem c19_model_tree_has_table_keys : forall e chans c i r s ch,
